@@ -497,8 +497,62 @@ func ruleR12(c *Ctx) *RuleResult {
 		}
 	}
 	ruleR12dDescent(c, r)
+	ruleR12found(c, r)
 	ruleR12f(c, r)
 	return r
+}
+
+// ruleR12found — the converse of R12c for the AVL tree's recursive remove: every path that found the key (the comparator
+// answered 0 for a non-nil node) removes an entry — directly or by handing the successor's entry over — and so decrements the
+// cached size, whatever the rebalancing below it reports (a decrement placed inside `if removeMin(…) {` is skipped whenever the
+// right subtree keeps its height).
+func ruleR12found(c *Ctx, r *RuleResult) {
+	p := c.p
+	clause := "R12g-found every path of the AVL remove that found the key decrements the size (the entry is gone whether or not the subtree below changed height)"
+	fn := anchorFn(p, "trees/avltree.Tree", "remove")
+	key := "R12c:trees/avltree.Tree.remove-found"
+	if fn == nil {
+		return
+	}
+	gc := c.GC(fn)
+	if gc.Undecided != "" {
+		return
+	}
+	var bad []string
+	n := 0
+	for _, g := range gc.GCs {
+		found := false
+		for _, a := range g.Guards {
+			if a.Op == "==" && len(a.Args) == 2 && a.Args[0].String() == "#:0" && a.Args[1].Op == "dyn" && hasField(a.Args[1], "Comparator") {
+				found = true
+			}
+		}
+		if !found || g.Exit.Op != "return" {
+			continue
+		}
+		n++
+		dec := false
+		for _, ef := range g.Effects {
+			if storeToField(ef, "size") {
+				if d := linOf(ef.Args[1]); d.k == -1 {
+					dec = true
+				}
+			}
+			// an unknown helper that was entered carries its stores on this path; a known callee that unlinks and counts
+			// (none today) would be a call — not accepted here
+		}
+		if !dec {
+			bad = append(bad, "a path that found the key returns without decrementing the size: "+trunc(guardsString(g), 240))
+		}
+	}
+	switch {
+	case n == 0:
+		// the recursion was rewritten beyond this clause's reach: no verdict
+	case len(bad) > 0:
+		r.add(Obligation{Key: key, Rule: "R12c", Clause: clause, Pos: p.FuncPos(fn), Status: Violated, Facts: strings.Join(dedup(bad), "\n")})
+	default:
+		r.add(Obligation{Key: key, Rule: "R12c", Clause: clause, Pos: p.FuncPos(fn), Status: Discharged, Facts: fmt.Sprintf("%d found-paths, each decrements the size", n)})
+	}
 }
 
 // ruleR12dDescent — B-tree: the insertion descent looks at the key it passes. `search(node, key)` answers (position, found);
